@@ -165,6 +165,29 @@ func (e *Encoder) Write(indexPath string) error {
 	base = indexPath[:len(indexPath)-len(ext)]
 
 	filename := base + ".par2"
+
+	// Don't overwrite any of the data files (which would happen
+	// e.g. if a previous run's output files are passed in as data
+	// files).
+	outputPaths := []string{filename}
+	for i, volumeCount := 0, 1; i < e.parityShardCount; i, volumeCount = i+volumeCount, volumeCount*2 {
+		if i+volumeCount > e.parityShardCount {
+			volumeCount = e.parityShardCount - i
+		}
+		outputPaths = append(outputPaths, fmt.Sprintf("%s.vol%02d+%02d.par2", base, i, volumeCount))
+	}
+	for _, outputPath := range outputPaths {
+		absOutputPath, err := filepath.Abs(outputPath)
+		if err != nil {
+			return err
+		}
+		for _, relPath := range e.relFilePaths {
+			if filepath.Join(e.basePath, relPath) == absOutputPath {
+				return errors.New("output file would overwrite data file " + relPath)
+			}
+		}
+	}
+
 	err = e.fileIO.WriteFile(filename, parityFileBytes)
 	e.delegate.OnIndexFileWrite(filename, len(parityFileBytes), err)
 	if err != nil {
